@@ -285,3 +285,72 @@ func ruleOuterLink(p *Prog, r *Report, sp *ssa.Package) {
 	}
 	r.Extra("outer_links", n)
 }
+
+// ---- CBCLOSE: whatever a callback returns, the box it read from is closed before the handler returns ----------
+//
+// The callbacks (ExifReader, XMPReader, PreviewImageReader) stop reading wherever they like — a parser that gives up
+// on malformed XMP leaves the reader in the middle of the payload. The handler that made the call must therefore
+// pass a (*box).close() on every path from the call to any of its returns, the failing ones included; otherwise
+// the next ReadMetadata call parses payload bytes as a box header.
+func ruleCallbackClose(p *Prog, r *Report, sp *ssa.Package) {
+	cls := p.Func("isobmff", "*box", "close")
+	if cls == nil {
+		r.Undecided("CBCLOSE", "isobmff.(*box).close", "-", "unresolved anchor")
+		return
+	}
+	for _, f := range pkgFns(sp, p) {
+		eachCall(f, func(site ssa.CallInstruction) {
+			c := site.Common()
+			if c.IsInvoke() || c.StaticCallee() != nil {
+				return
+			}
+			if _, isB := c.Value.(*ssa.Builtin); isB {
+				return
+			}
+			sig, ok := c.Value.Type().Underlying().(*types.Signature)
+			if !ok || sig.Params().Len() == 0 || sig.Params().At(0).Type().String() != "io.Reader" {
+				return
+			}
+			key := fmt.Sprintf("%s | box closed after callback %s", fnName(f), shortVal(c.Value))
+			at := p.posStr(instrPos(site))
+			in, _ := site.(ssa.Instruction)
+			closesFrom := func(b *ssa.BasicBlock, from int) bool {
+				for i := from; i < len(b.Instrs); i++ {
+					if cc, ok := b.Instrs[i].(ssa.CallInstruction); ok && cc.Common().StaticCallee() == cls {
+						return true
+					}
+				}
+				return false
+			}
+			bad := ""
+			seen := map[*ssa.BasicBlock]bool{}
+			var walk func(b *ssa.BasicBlock, from int)
+			walk = func(b *ssa.BasicBlock, from int) {
+				if bad != "" {
+					return
+				}
+				if closesFrom(b, from) {
+					return
+				}
+				if len(b.Instrs) > 0 {
+					if rt, ok := b.Instrs[len(b.Instrs)-1].(*ssa.Return); ok {
+						bad = "the return at " + p.posStr(instrPos(rt)) + " is reached from the callback without close() on the box: when the callback stops early the reader is left inside the payload and the next box header is read from payload bytes"
+						return
+					}
+				}
+				for _, s := range b.Succs {
+					if !seen[s] {
+						seen[s] = true
+						walk(s, 0)
+					}
+				}
+			}
+			walk(in.Block(), instrIndex(in)+1)
+			if bad != "" {
+				r.Bad("CBCLOSE", key, at, bad)
+			} else {
+				r.OK("CBCLOSE", key, at, "every path from the callback to a return passes (*box).close()")
+			}
+		})
+	}
+}
